@@ -69,7 +69,8 @@ class Item:
         self.probes = probes or []   # list of (probe_key, one-line text)
 
 
-def compile_items(arts, items, tag, emit="metadata", nshards=64, jobs=16, extra_flags=(), prelude=PRELUDE, edition="2021", crate_type="lib"):
+def compile_items(arts, items, tag, emit="metadata", nshards=64, jobs=16, extra_flags=(), prelude=PRELUDE, edition="2021", crate_type="lib",
+                  mod_doc=False, cap_lints=True, keep_files=None):
     """Compile all items, sharded over rustc processes. Returns dict key -> list of (code, message, level)
     for errors; probe keys are (item_key, probe_key)."""
     out_dir = os.path.join(B.WORK, "declmc", tag)
@@ -84,6 +85,8 @@ def compile_items(arts, items, tag, emit="metadata", nshards=64, jobs=16, extra_
         lines = prelude.rstrip("\n").split("\n")
         lmap = []   # (start, end, key)
         for j, it in shards[si]:
+            if mod_doc:
+                lines.append("/// module")
             lines.append(f"pub mod m{j} {{ use super::*;")
             start = len(lines) + 1
             body = it.text.split("\n")
@@ -98,7 +101,9 @@ def compile_items(arts, items, tag, emit="metadata", nshards=64, jobs=16, extra_
             f.write("\n".join(lines) + "\n")
         cmd = ["rustc", "--edition", edition, "--crate-type", crate_type, f"--emit={emit}", "--error-format=json", "-o",
                os.path.join(out_dir, f"s{si}.out"), "-L", f"dependency={arts['deps']}", "--extern", f"bitbybit={arts['bitbybit']}",
-               "--extern", f"arbitrary_int={arts['arbitrary_int']}", "--cap-lints", "warn", *extra_flags, fn]
+               "--extern", f"arbitrary_int={arts['arbitrary_int']}", *(("--cap-lints", "warn") if cap_lints else ()), *extra_flags, fn]
+        if keep_files is not None:
+            keep_files.append(fn)
         p = subprocess.run(cmd, capture_output=True, text=True, env=dict(os.environ, RUSTC_BOOTSTRAP=os.environ.get("RUSTC_BOOTSTRAP", "0")))
         errs, unattributed = {}, []
         starts = sorted(lmap)
